@@ -54,6 +54,7 @@ type loadReply struct {
 	Repos  []*zoekt.Repository // metadata as parsed (index.ReadMetadata)
 	Listed []uint32            // IDs returned by List(Const true) of the loaded searcher
 	Files  [][2]string         // (repository, file) returned by Search(Const true)
+	FileID []uint32            // repository ID of each of them
 }
 
 // childLoad opens the shard the way search.loadShard does and then parses its metadata / loads it while (Exhaust) the
@@ -97,6 +98,7 @@ func childLoad(r tombReq) loadReply {
 	if res, err := s.Search(ctx, &query.Const{Value: true}, &zoekt.SearchOptions{}); err == nil {
 		for _, fm := range res.Files {
 			rep.Files = append(rep.Files, [2]string{fm.Repository, fm.FileName})
+			rep.FileID = append(rep.FileID, fm.RepositoryID)
 		}
 	}
 	return rep
@@ -136,6 +138,7 @@ type cdoc struct {
 	repo    string
 	name    string
 	content string
+	rid     uint32 // repository ID (two entries of a shard may share a name)
 }
 
 type crepo struct {
@@ -156,6 +159,7 @@ type world struct {
 	deltaID  uint32
 	part     map[string]int // repo\x00file -> which simple shard of its repository the document was built into
 	splitID  uint32         // the repository that was built as several shards before the merge (0 = none)
+	twinIDs  [2]uint32      // old and new ID of the repository that was re-created under its old name (0,0 = none)
 }
 
 func mkContent(r *gen.Rand, name string) string {
@@ -198,7 +202,7 @@ func buildWorld(root string, r *gen.Rand, n int) *world {
 		}
 		for j := 0; j < nd; j++ {
 			name := fmt.Sprintf("%s/f%d.%s", gen.Pick(r, []string{"src", "lib", "cmd"}), j, gen.Pick(r, []string{"go", "txt"}))
-			d := cdoc{repo: rp.name, name: name, content: mkContent(r, name)}
+			d := cdoc{repo: rp.name, name: name, content: mkContent(r, name), rid: rp.id}
 			if j == 0 {
 				d.content += fmt.Sprintf("uniq%dtoken\n", rp.id) // occurs in this repository only
 			}
@@ -218,15 +222,42 @@ func buildWorld(root string, r *gen.Rand, n int) *world {
 		}
 		must(f1util.RunBuild(f1util.BuildSpec{Dir: stage, RepoName: rp.name, RepoID: rp.id, Gen: 1, ShardMax: shardMax, Docs: docs}))
 	}
+	// in half of the worlds (always in world 1) one repository was deleted and re-created: the compound shard holds a
+	// second entry with the same name under a new ID, with its own files
+	stages := []string{stage}
+	if n == 1 || r.Chance(1, 2) {
+		orig := w.repos[r.Intn(k)]
+		rp := crepo{name: orig.name, id: 100 + orig.id}
+		w.repos = append(w.repos, rp)
+		w.twinIDs = [2]uint32{orig.id, rp.id}
+		var docs []f1util.Doc
+		for j := 0; j < 2+r.Intn(2); j++ {
+			name := fmt.Sprintf("re/g%d.go", j)
+			d := cdoc{repo: rp.name, name: name, content: mkContent(r, name), rid: rp.id}
+			if j == 0 {
+				d.content += fmt.Sprintf("uniq%dtoken\n", rp.id)
+			}
+			w.docs = append(w.docs, d)
+			w.allDocs = append(w.allDocs, d)
+			docs = append(docs, f1util.Doc{Name: d.name, Content: d.content})
+		}
+		stage2 := w.dir + ".stage2" // same shard file name as the original: built in a directory of its own
+		must(os.MkdirAll(stage2, 0o755))
+		must(f1util.RunBuild(f1util.BuildSpec{Dir: stage2, RepoName: rp.name, RepoID: rp.id, Gen: 1, ShardMax: 1 << 20, Docs: docs}))
+		stages = append(stages, stage2)
+	}
 	// merge the simple shards into one compound shard
 	var files []index.IndexFile
-	es, _ := os.ReadDir(stage)
-	for _, e := range es {
-		f, err := os.Open(filepath.Join(stage, e.Name()))
-		must(err)
-		inf, err := index.NewIndexFile(f)
-		must(err)
-		files = append(files, inf)
+	for _, st := range stages {
+		es, _ := os.ReadDir(st)
+		for _, e := range es {
+			f, err := os.Open(filepath.Join(st, e.Name()))
+			must(err)
+			inf, err := index.NewIndexFile(f)
+			must(err)
+			files = append(files, inf)
+		}
+		defer os.RemoveAll(st)
 	}
 	tmp, dst, err := index.Merge(w.dir, files...)
 	must(err)
@@ -245,13 +276,13 @@ func buildWorld(root string, r *gen.Rand, n int) *world {
 		var old []cdoc
 		for j := 0; j < 3+r.Intn(2); j++ {
 			name := fmt.Sprintf("pkg/d%d.go", j)
-			d := cdoc{repo: rp.name, name: name, content: mkContent(r, name)}
+			d := cdoc{repo: rp.name, name: name, content: mkContent(r, name), rid: rp.id}
 			old = append(old, d)
 			docs = append(docs, f1util.Doc{Name: d.name, Content: d.content})
 		}
 		must(f1util.RunBuild(f1util.BuildSpec{Dir: w.dir, RepoName: rp.name, RepoID: rp.id, Gen: 1, ShardMax: 1 << 20, Docs: docs}))
 		// delta: change the first file, remove the second
-		changed := cdoc{repo: rp.name, name: old[0].name, content: mkContent(r, old[0].name) + "changed " + gen.Pick(r, words) + "\n"}
+		changed := cdoc{repo: rp.name, rid: rp.id, name: old[0].name, content: mkContent(r, old[0].name) + "changed " + gen.Pick(r, words) + "\n"}
 		must(f1util.RunBuild(f1util.BuildSpec{Dir: w.dir, RepoName: rp.name, RepoID: rp.id, Gen: 2, Delta: true, ShardMax: 1 << 20,
 			Docs: []f1util.Doc{{Name: changed.name, Content: changed.content}}, Changed: []string{old[0].name, old[1].name}}))
 		w.hiddenBy[rp.name] = []string{old[0].name, old[1].name}
@@ -327,10 +358,12 @@ func (q *qn) toZoekt() query.Q {
 
 // eval: does the document match, tombstones ignored (the harness's own reading of the query language)
 func (q *qn) eval(w *world, d cdoc) bool {
-	id := uint32(0)
-	for _, r := range w.repos {
-		if r.name == d.repo {
-			id = r.id
+	id := d.rid
+	if id == 0 {
+		for _, r := range w.repos {
+			if r.name == d.repo {
+				id = r.id
+			}
 		}
 	}
 	switch q.kind {
@@ -474,7 +507,7 @@ func docOrder(w *world, path string, scratch string) ([]cdoc, []string) {
 	var out []cdoc
 	var repos []string
 	for _, fm := range res.Files {
-		out = append(out, cdoc{repo: fm.Repository, name: fm.FileName, content: string(fm.Content)})
+		out = append(out, cdoc{repo: fm.Repository, name: fm.FileName, content: string(fm.Content), rid: fm.RepositoryID})
 		repos = append(repos, fm.Repository)
 	}
 	return out, repos
@@ -493,12 +526,12 @@ func (w *world) shardView(path string, scratch string, docOrderCache map[string]
 	// documents are contiguous per repository entry; a repository built as several shards has one entry per shard
 	ri, prev := -1, ""
 	for _, d := range docs {
-		key := fmt.Sprintf("%s\x00%d", d.repo, w.part[d.repo+"\x00"+d.name])
+		key := fmt.Sprintf("%s\x00%d\x00%d", d.repo, d.rid, w.part[d.repo+"\x00"+d.name])
 		if key != prev {
 			ri++
 			prev = key
 		}
-		if ri >= len(repos) || repos[ri].Name != d.repo {
+		if ri >= len(repos) || repos[ri].Name != d.repo || repos[ri].ID != d.rid {
 			panic(fmt.Sprintf("shard %s: document %s:%s does not line up with repository entry %d", path, d.repo, d.name, ri))
 		}
 		sv.ridx = append(sv.ridx, ri)
@@ -640,9 +673,9 @@ func (rn *runner) probeLoad(w *world, shard string, exhaust bool, scratch string
 				verdict, key = fmt.Sprintf("a shard loaded while its sidecar was unreadable lists the tombstoned repository %d", id), "e2e:reload-shows-tombstoned-repository"
 			}
 		}
-		for _, f := range rep.Files {
+		for fi, f := range rep.Files {
 			for _, rp := range w.repos {
-				if rp.name == f[0] && w.believed[rp.id] {
+				if rp.id == rep.FileID[fi] && w.believed[rp.id] {
 					verdict, key = fmt.Sprintf("a shard loaded while its sidecar was unreadable returns %s:%s of a tombstoned repository", f[0], f[1]), "e2e:reload-shows-tombstoned-repository"
 				}
 			}
@@ -795,13 +828,35 @@ func (rn *runner) queryShard(w *world, sv *shardView, s zoekt.Searcher, q *qn) {
 	case q.repoLevel():
 		var idx []int
 		for i, rp := range sv.repos {
-			if q.eval(w, cdoc{repo: rp.Name}) {
+			if q.eval(w, cdoc{repo: rp.Name, rid: rp.ID}) {
 				idx = append(idx, i)
 			}
 		}
 		qf = "rp:" + natList(idx)
 	default:
 		qf = "dp:" + natList(matching)
+	}
+	if !strings.HasPrefix(qf, "c") {
+		// layout counter: a tombstoned entry that shares its name with a live entry which has a live matching document
+		namesake := false
+		for i, dead := range sv.repos {
+			if !dead.Tombstone {
+				continue
+			}
+			for j, live := range sv.repos {
+				if i == j || live.Tombstone || live.Name != dead.Name {
+					continue
+				}
+				for _, m := range matching {
+					if sv.ridx[m] == j {
+						namesake = true
+					}
+				}
+			}
+		}
+		if namesake {
+			rn.w.Count("list:tombstoned-namesake-of-a-found-live-entry", 1)
+		}
 	}
 	rl, err := s.List(ctx, zq, nil)
 	must(err)
@@ -843,18 +898,24 @@ func hitsFree(hits []int, i int) bool {
 func (rn *runner) e2e(w *world, ss zoekt.Streamer, q *qn, after string) {
 	ctx := context.Background()
 	zq := q.toZoekt()
+	tombID := func(id uint32) bool { return w.believed[id] }
+	// a name is tombstoned when every entry that carries it is (a re-created repository keeps the name under a new ID)
 	tomb := func(repo string) bool {
+		n, dead := 0, 0
 		for _, rp := range w.repos {
 			if rp.name == repo {
-				return w.believed[rp.id]
+				n++
+				if w.believed[rp.id] {
+					dead++
+				}
 			}
 		}
-		return false
+		return n > 0 && n == dead
 	}
 	want := map[string]bool{}
 	wantRepos := map[string]bool{}
 	for _, d := range w.docs {
-		if !tomb(d.repo) && q.eval(w, d) {
+		if !tombID(d.rid) && q.eval(w, d) {
 			want[d.repo+"\x00"+d.name+"\x00"+d.content] = true
 			wantRepos[d.repo] = true
 		}
@@ -865,7 +926,7 @@ func (rn *runner) e2e(w *world, ss zoekt.Streamer, q *qn, after string) {
 	got := map[string]bool{}
 	for _, fm := range res.Files {
 		got[fm.Repository+"\x00"+fm.FileName+"\x00"+string(fm.Content)] = true
-		if tomb(fm.Repository) {
+		if tombID(fm.RepositoryID) {
 			verdict, key = fmt.Sprintf("search returned %s:%s of a tombstoned repository", fm.Repository, fm.FileName), "e2e:tombstoned-repository-in-results"
 		}
 		for _, h := range w.hiddenBy[fm.Repository] {
@@ -902,7 +963,7 @@ func (rn *runner) e2e(w *world, ss zoekt.Streamer, q *qn, after string) {
 		must(err)
 		lv, lk := "", ""
 		for _, fm := range lres.Files {
-			if tomb(fm.Repository) {
+			if tombID(fm.RepositoryID) {
 				lv, lk = fmt.Sprintf("search with ShardRepoMaxMatchCount=%d returned %s:%s of a tombstoned repository", limit, fm.Repository, fm.FileName), "e2e:tombstoned-repository-in-limited-results"
 			} else if !want[fm.Repository+"\x00"+fm.FileName+"\x00"+string(fm.Content)] {
 				lv, lk = fmt.Sprintf("search with ShardRepoMaxMatchCount=%d returned unexpected %s:%s", limit, fm.Repository, fm.FileName), "e2e:limited-results-differ"
@@ -943,8 +1004,8 @@ func (rn *runner) e2e(w *world, ss zoekt.Streamer, q *qn, after string) {
 	gotRepos := map[string]bool{}
 	for _, e := range rl.Repos {
 		gotRepos[e.Repository.Name] = true
-		if tomb(e.Repository.Name) {
-			verdict, key = "List returned the tombstoned repository "+e.Repository.Name, "e2e:tombstoned-repository-listed"
+		if tombID(e.Repository.ID) {
+			verdict, key = fmt.Sprintf("List returned the tombstoned repository %s (ID %d)", e.Repository.Name, e.Repository.ID), "e2e:tombstoned-repository-listed"
 		}
 	}
 	if verdict == "" {
@@ -1022,6 +1083,9 @@ func (rn *runner) runWorld(n int, nOps int, nQueries int) {
 	for i := 0; i < nOps; i++ {
 		rp := gen.Pick(r, w.repos[:len(w.repos)-btoi(w.deltaID != 0)])
 		id := rp.id
+		if w.twinIDs[0] != 0 && r.Chance(1, 3) {
+			id = w.twinIDs[r.Intn(2)] // the deleted-and-re-created repository: usually one of its two entries is dead
+		}
 		if r.Chance(1, 8) {
 			id = 999 // not in the shard
 		}
